@@ -228,6 +228,32 @@ Theorem C16_session_flatten_keeps :
 Proof. exact session_flatten_keeps. Qed.
 Print Assumptions C16_session_flatten_keeps.
 
+(* ---------------- round 5: the default is cast with the column's FINAL parameters ---------------- *)
+(* Whatever was declared - everything by a type name (DECIMAL(p,s), VARCHAR[n]), part of it by keywords (precision
+   only, scale only, length, element type), nothing at all - the constructor first settles length, precision, scale
+   and element type (from the name, from the decimal context, scale = 3/4 of the precision) and only THEN casts the
+   default: the stored default of a typed column is the result of its type's parse under the parameters the built
+   column ends up with, which are exactly the ones every reload (from_dict, from_json) passes again. *)
+Theorem C16_default_is_cast_with_the_final_parameters :
+  forall (parse : str -> params -> pv -> result pv) (cls fresh : str) (kw : kwargs) (c : column),
+  init parse cls fresh kw = Ok c ->
+  is_none (c_default c) = false ->
+  forall m, c_type c = PA (ATy m) -> m <> missing_member ->
+  exists D, parse m (col_params c) D = Ok (c_default c).
+Proof. exact init_default_final. Qed.
+Print Assumptions C16_default_is_cast_with_the_final_parameters.
+
+(* Hence, for a parse that leaves its own results alone (idempotence of the casts: C07; proved here for the BLOB /
+   VARCHAR length cut, C16_length_cut_is_idempotent), EVERY column the constructor builds - from any keywords, any
+   class - satisfies the default premise [default_ok] of the round-trip theorems. *)
+Theorem C16_constructed_default_survives_reparse :
+  forall (parse : str -> params -> pv -> result pv) (cls fresh : str) (kw : kwargs) (c : column),
+  parse_idempotent parse ->
+  init parse cls fresh kw = Ok c ->
+  default_ok parse c (c_default c).
+Proof. exact init_default_ok. Qed.
+Print Assumptions C16_constructed_default_survives_reparse.
+
 (* ---------------- witnesses ---------------- *)
 Definition P0 : str -> params -> pv -> result pv := fun _ _ v => Ok v.
 Definition T (s : string) : pv := PA (AText (txt s)).
@@ -389,3 +415,24 @@ Example C16_nonvacuous_flatten_session :
              bind (to_flatcolumn PC [] c') (fun r => Ok (c_default r, c_length r, c_aliases r)) =
              Ok (T "hello, world!", PNone, PL [AText (txt "g")]).
 Proof. eexists. split; [vm_compute; reflexivity|]. split; vm_compute; reflexivity. Qed.
+
+(* Round 5 non-vacuity / the two declaration paths agree: parameters said by the type name and the same parameters
+   said by keywords build the same column (identity given), and a DECIMAL column with only its precision declared gets
+   scale 7 BEFORE its default is cast (the parse below records the precision and scale it is given). *)
+Definition PR : str -> params -> pv -> result pv :=
+  fun m q v => let '(len, p, s, e) := q in
+               match text_cast m q v with Some r => r | None => Ok (PL [AText m; match p with PA a => a | _ => ANone end;
+                                                                        match s with PA a => a | _ => ANone end]) end.
+Definition kw_of (ty : string) (extra : kwargs) : kwargs :=
+  [(FName, T "x"); (FType, T ty); (FIdentity, T "0123456789abcdef"); (FDefault, T "1.123456789")] ++ extra.
+Example C16_nonvacuous_two_paths :
+  init PR class_flat [] (kw_of "DECIMAL(10,2)" []) = init PR class_flat [] (kw_of "DECIMAL" [(FPrecision, PA (AInt 10)); (FScale, PA (AInt 2))]) /\
+  init PR class_flat [] (kw_of "VARCHAR[3]" []) = init PR class_flat [] (kw_of "VARCHAR" [(FLength, PA (AInt 3))]) /\
+  init PR class_flat [] (kw_of "BLOB[8]" []) = init PR class_flat [] (kw_of "blob" [(FLength, PA (AInt 8))]) /\
+  init PR class_flat [] (kw_of "ARRAY<INTEGER>" []) = init PR class_flat [] (kw_of "ARRAY" [(FElementType, T "INTEGER")]) /\
+  bind (init PR class_flat [] (kw_of "DECIMAL" [(FPrecision, PA (AInt 10))])) (fun c => Ok (c_precision c, c_scale c, c_default c)) =
+    Ok (PA (AInt 10), PA (AInt 7), PL [AText ty_decimal; AInt 10; AInt 7]) /\
+  bind (init PR class_flat [] (kw_of "DECIMAL" [])) (fun c => Ok (c_precision c, c_scale c, c_default c)) =
+    Ok (PA (AInt decimal_default_precision), PA (AInt 21), PL [AText ty_decimal; AInt decimal_default_precision; AInt 21]) /\
+  bind (init PR class_flat [] (kw_of "VARCHAR[3]" [])) (fun c => Ok (c_default c)) = Ok (T "1.1").
+Proof. repeat split; vm_compute; reflexivity. Qed.
